@@ -184,6 +184,13 @@ func (ph *ptraceHandle) handle(pid int, wstatus unix.WaitStatus) (status runner.
 			exitStatus = int(sig)
 			return
 		}
+		// a child process killed by the seccomp filter made a disallowed syscall
+		// just like the main process would have
+		if sig == unix.SIGSYS {
+			status = runner.StatusDisallowedSyscall
+			exitStatus = int(sig)
+			return
+		}
 		unix.PtraceCont(pid, int(sig))
 
 	case wstatus.Stopped():
